@@ -16,7 +16,8 @@ CONSTANTS Ops, Incs, ModeOpts
 VARIABLES cell, last
 vars == <<cell, last>>
 None == [op |-> "none"]
-Init == cell \in [op : Ops, lg : UnitOpts, sm : UnitSet \cup {Absent}, inc : Incs] /\ last = None
+\* (smallestUnit "auto" is enumerated too: it must be rejected everywhere)
+Init == cell \in [op : Ops, lg : UnitOpts, sm : UnitOpts, inc : Incs] /\ last = None
 
 IsSince(op) == op \in {"PlainDate.since", "PlainTime.since", "PlainDateTime.since", "Instant.since", "PlainYearMonth.since"}
 TypeOf(op) == CASE op \in {"PlainDate.until", "PlainDate.since"} -> "PlainDate" [] op \in {"PlainTime.until", "PlainTime.since"} -> "PlainTime"
